@@ -1,6 +1,6 @@
 (* C15 property theorems. Only statements closed by [exact lemma] and Print Assumptions. *)
 From V Require Import Common.Base C15.Names C15.Renamer C15.Spec
-  C15.NamesProofs C15.NumberProofs C15.SlotsProofs C15.MinifyProofs C15.ComposeProofs C15.ResolveProofs C15.ScopeBuild C15.ScopeProg C15.ScopeBuildProofs C15.ScopeResolveProofs.
+  C15.NamesProofs C15.NumberProofs C15.SlotsProofs C15.MinifyProofs C15.ComposeProofs C15.ResolveProofs C15.ScopeBuild C15.ScopeProg C15.ScopeBuildProofs C15.ScopeResolveProofs C15.HoistedProofs.
 
 (* NumberToMinifiedName is injective for every alphabet without repeated characters *)
 Theorem minified_name_injective : forall m,
@@ -290,3 +290,13 @@ Theorem resolution_preserved_wrapped_partial : forall prog fuel reserved names,
   Forall (ref_preserved st names) (parser_refs prog).
 Proof. exact resolution_preserved_wrapped_all. Qed.
 Print Assumptions resolution_preserved_wrapped_partial.
+
+(* ---- the linker's registration of hoisted import symbols (regenerated inventory) ----
+   every symbol-holding field of the statements that are hoisted out of a
+   CommonJS wrapper (import default name, namespace ref and items; export-star
+   namespace ref; export-from namespace ref and items) is passed to
+   AddTopLevelSymbol in linker.renameSymbolsInChunk: the symbols declared at the
+   chunk's top level by hoisting are covered by number_toplevel_distinct *)
+Theorem hoisted_import_symbols_registered : hoisted_all_registered = true.
+Proof. exact hoisted_all_registered_true. Qed.
+Print Assumptions hoisted_import_symbols_registered.
